@@ -27,6 +27,8 @@ type Options struct {
 	Ignores   bool // sprinkle @ignore comments
 	TestFiles bool // add _test.go files (in-package and external) and excluded-token files
 	NearMiss  bool // salt with near-miss comments
+	// ForceTwin: two declaring packages that are byte-for-byte twins (same offsets in separate processes)
+	ForceTwin bool
 	// NoAnnotations: no declaration carries a real annotation (C09); near-misses only
 	NoAnnotations bool
 	// Root is the directory (and import-path element) of this program inside the module "exp"
@@ -155,6 +157,9 @@ func Generate(seed uint64, o Options) *Module {
 
 	// ---- package DAG: declaring packages d0..dk, user packages u0..um
 	nDecl := 1 + r.Intn(2)
+	if o.ForceTwin {
+		nDecl = 2
+	}
 	nUser := 1 + r.Intn(3)
 	var pkgs []*gpkg
 	var decls []*gpkg
@@ -167,7 +172,7 @@ func Generate(seed uint64, o Options) *Module {
 			p.path += "/model"
 			p.name = "model"
 		}
-		if i > 0 && r.Chance(1, 2) {
+		if i > 0 && r.Chance(1, 2) && !o.ForceTwin {
 			p.imports = append(p.imports, decls[0])
 		}
 		decls = append(decls, p)
@@ -206,7 +211,20 @@ func Generate(seed uint64, o Options) *Module {
 	}
 
 	// ---- annotated items in declaring packages
-	for _, d := range decls {
+	twin := len(decls) > 1 && len(decls[1].imports) == 0 && (r.Chance(1, 3) || o.ForceTwin) // d1 is a byte-for-byte twin of d0
+	for di, d := range decls {
+		if twin && di == 1 {
+			for _, t := range decls[0].types {
+				c := *t
+				c.pkg = d
+				d.types = append(d.types, &c)
+			}
+			for _, f := range decls[0].funcs {
+				c := *f
+				d.funcs = append(d.funcs, &c)
+			}
+			continue
+		}
 		nT := 1 + r.Intn(3)
 		for i := 0; i < nT; i++ {
 			t := &gtype{pkg: d, name: fmt.Sprintf("T%d", i), docStyle: r.Intn(3)}
@@ -247,7 +265,25 @@ func Generate(seed uint64, o Options) *Module {
 
 	// ---- render every package
 	for _, p := range pkgs {
+		if twin && p == decls[1] {
+			continue
+		}
 		g.renderPkg(m, p, decls)
+	}
+	if twin {
+		// same bytes, same offsets: only the package clause and the directory differ (names of equal length)
+		d0dir := strings.TrimPrefix(decls[0].path, "exp/") + "/"
+		d1dir := strings.TrimPrefix(decls[1].path, "exp/") + "/"
+		for name, content := range m.Files {
+			if strings.HasPrefix(name, d0dir) {
+				c := content
+				if decls[0].name != decls[1].name {
+					c = strings.Replace(c, "package "+decls[0].name+"\n", "package "+decls[1].name+"\n", 1)
+					c = strings.Replace(c, "package "+decls[0].name+"_test\n", "package "+decls[1].name+"_test\n", 1)
+				}
+				m.Files[d1dir+strings.TrimPrefix(name, d0dir)] = c
+			}
+		}
 	}
 	return m
 }
